@@ -76,7 +76,7 @@ class TimeTriggerDecorator(TriggerDecorator):
     run_on_startup: bool = False
     run_on_shutdown: bool = False
     timespec: list[str]
-    _cycle_task: asyncio.Task
+    _cycle_task: asyncio.Task | None = None
 
     async def validate(self) -> None:
         """Validate the decorator arguments."""
@@ -120,7 +120,11 @@ class TimeTriggerDecorator(TriggerDecorator):
                 )
                 if time_next is None:
                     _LOGGER.debug("trigger %s finished", self.name)
-                    if isinstance(self.dm, WaitUntilDecoratorManager):
+                    if (
+                        isinstance(self.dm, WaitUntilDecoratorManager)
+                        and len(self.dm.get_decorators(TriggerDecorator)) == 1
+                    ):
+                        # only time triggers and no timeout: nothing can ever occur
                         await self.dispatch(DispatchData({"trigger_type": "none"}))
                     break
 
